@@ -144,15 +144,26 @@ class RuntimeContract:
         # ghost rng: record what the OS generator hands out during this call (spsdk.crypto.rng is the only entry point)
         import spsdk.crypto.rng as _rng
 
+        import secrets as _secrets
+
         del api.RNG_RECORDER[:]
-        _orig_tb = _rng.token_bytes
+        _has_tb = hasattr(_rng, "token_bytes")   # a tree whose rng module no longer imports the OS generator has nothing to record there
+        _orig_tb = getattr(_rng, "token_bytes", None)
+        _orig_sec = _secrets.token_bytes
 
         def _rec(n: int = 32) -> bytes:
-            b = _orig_tb(n)
+            b = (_orig_tb or _orig_sec)(n)
             api.RNG_RECORDER.append(b)
             return b
 
-        _rng.token_bytes = _rec
+        def _rec_sec(n: Any = None) -> bytes:
+            b = _orig_sec(n)
+            api.RNG_RECORDER.append(b)
+            return b
+
+        if _has_tb:
+            _rng.token_bytes = _rec
+        _secrets.token_bytes = _rec_sec
         try:
             fn = self._callable()
             if timeout_s is not None:
@@ -166,7 +177,9 @@ class RuntimeContract:
         except Exception as e:  # pylint: disable=broad-except
             exc = e
         finally:
-            _rng.token_bytes = _orig_tb
+            if _has_tb:
+                _rng.token_bytes = _orig_tb
+            _secrets.token_bytes = _orig_sec
         if exc is not None:
             rep["outcome"] = f"raised {type(exc).__name__}: {str(exc)[:120]}"
             matched = [(l, c, w) for (l, c, w) in whens if isinstance(exc, c)]
